@@ -140,10 +140,11 @@ class SDict:
     """dict[int,int] value: domain, values, insertion order (keys[0..n)) and inverse index pos.
     Well-formedness (see wf()) is assumed for pre-state dicts and maintained by the operations."""
 
-    __slots__ = ("dom", "val", "keys", "pos", "n")
+    __slots__ = ("dom", "val", "keys", "pos", "n", "meta")
 
-    def __init__(self, dom, val, keys, pos, n):
+    def __init__(self, dom, val, keys, pos, n, meta=None):
         self.dom, self.val, self.keys, self.pos, self.n = dom, val, keys, pos, n
+        self.meta = meta  # provenance (e.g. the pair list a dict(...) call was built from), for lemmas
 
     @staticmethod
     def fresh(name):
@@ -425,3 +426,50 @@ def bytes_len(v):
     if isinstance(v, SBytes):
         return v.length()
     raise CheckerError(f"len() of non-bytes {v!r}")
+
+
+# ----------------------------------------------------------------------------------------------
+# definitional axioms of spec-level predicates (added to every obligation that mentions them)
+DEFN_AXIOMS = {}  # decl name -> [axiom]
+_view_memo = {}
+
+
+def interval_view(d, x):
+    """x is covered by some range [k, d[k]) of the dict: uninterpreted predicate with triggered
+    definitional axioms and a Skolem witness function (inline exists goes `unknown`)."""
+    key = (d.dom.get_id(), d.val.get_id())
+    if key not in _view_memo:
+        n = len(_view_memo)
+        I = z3.IntSort()
+        V = z3.Function(f"View{n}", I, z3.BoolSort())
+        w = z3.Function(f"view{n}.w", I, I)
+        xx, kk = z3.Int(f"vw{n}!x"), z3.Int(f"vw{n}!k")
+        ax1 = z3.ForAll([xx], z3.Implies(V(xx), z3.And(d.dom[w(xx)], w(xx) <= xx, xx < d.val[w(xx)])), patterns=[V(xx)])
+        ax2 = z3.ForAll([kk, xx], z3.Implies(z3.And(d.dom[kk], kk <= xx, xx < d.val[kk]), V(xx)),
+                        patterns=[z3.MultiPattern(d.dom[kk], V(xx))])
+        DEFN_AXIOMS[V.name()] = [ax1, ax2]
+        _view_memo[key] = (V, d)  # keep d alive so ids stay unique
+    return _view_memo[key][0](x)
+
+
+def axioms_for(formulas):
+    """definitional axioms of every registered predicate occurring in the formulas (transitively)."""
+    need, out = set(), []
+    seen = set()
+    stack = list(formulas)
+    while stack:
+        e = stack.pop()
+        i = e.get_id()
+        if i in seen:
+            continue
+        seen.add(i)
+        if z3.is_app(e):
+            nm = e.decl().name()
+            if nm in DEFN_AXIOMS and nm not in need:
+                need.add(nm)
+                out.extend(DEFN_AXIOMS[nm])
+                stack.extend(DEFN_AXIOMS[nm])
+            stack.extend(e.children())
+        elif z3.is_quantifier(e):
+            stack.append(e.body())
+    return out
